@@ -56,7 +56,7 @@ def cases(draw):
         ranked = sorted(pool, key=lambda h: -len(ancestors(b.prog, h)[0]))
         L = ranked[draw(st.integers(0, min(2, len(ranked) - 1)))]
         return {"mode": mode, "prog": b.prog, "L": L, "iters": draw(st.integers(2, 4))}
-    b = draw(history_program(max_steps=10, max_elems=12))
+    b = draw(history_program(max_steps=10, max_elems=12, with_fail=draw(st.booleans())))
     r = b.ref
     live = [h for h in r.env if r.is_tensor[h] and not r.isint[h] and r.env[h].size > 0]
     nonconst = [h for h in live if not r.const[h]]
@@ -74,7 +74,7 @@ def cases(draw):
         L = terms[0] if terms else pool[-1]
     tens = [h for h in r.env if r.is_tensor[h]]
     keep_extra = [h for h in tens if draw(st.integers(0, 3)) == 0]
-    actions = draw(st.lists(st.sampled_from(["view", "nonview", "inplace", "backward2", "null_grad", "view", "read_grad"]),
+    actions = draw(st.lists(st.sampled_from(["view", "use", "use", "use", "inplace", "backward2", "null_grad", "read_grad"]),
                             min_size=1, max_size=4))
     picks = draw(st.lists(st.integers(0, 50), min_size=len(actions), max_size=len(actions)))
     return {"mode": mode, "prog": b.prog, "L": L, "keep": keep_extra, "actions": actions, "picks": picks}
@@ -179,14 +179,56 @@ def check_release(case, rec):
                     if gv is None or not np.array_equal(gv, g1):
                         return Mismatch("view_grad_missing", f"a fresh view of h{h} does not report the view of h{h}.grad")
                 del v
-            elif act == "nonview":
+            elif act == "use":
+                # any operation on x: if the result shares memory with x it was view-only (gradient persists),
+                # otherwise x entered a non-view operation and its old gradient (and its views') must be gone
                 views = [t for t in run.env.values() if isinstance(t, mg.Tensor) and t.base is x]
-                y = x * 2.0
-                if x.grad is not None:
-                    return Mismatch("stale_grad_after_use", f"h{h}.grad is still set after h{h} entered a non-view operation")
-                for t in views:
-                    if t.grad is not None and t.creator is not None:
-                        return Mismatch("stale_view_grad_after_use", f"a view of h{h} still reports a gradient after h{h} entered a non-view operation")
+                uses = ["mul", "flatten", "reshape_flat", "ravel", "einsum_id", "einsum_opt", "transpose", "sum"]
+                if x.ndim >= 1:
+                    uses += ["advidx", "boolidx", "slice_rev"]
+                if x.ndim >= 2:
+                    uses += ["mixedidx", "mixedidx"]
+                u = uses[(pk // 7) % len(uses)]
+                try:
+                    if u == "mul":
+                        y = x * 2.0
+                    elif u == "flatten":
+                        y = x.flatten()
+                    elif u == "reshape_flat":
+                        y = x.reshape(-1)
+                    elif u == "ravel":
+                        y = mg.ravel(x)
+                    elif u == "einsum_id":
+                        y = mg.einsum("...->...", x)
+                    elif u == "einsum_opt":
+                        y = mg.einsum("...->...", x, optimize=True)
+                    elif u == "transpose":
+                        y = mg.transpose(x)
+                    elif u == "sum":
+                        y = x.sum()
+                    elif u == "advidx":
+                        y = x[[0]]
+                    elif u == "boolidx":
+                        y = x[np.ones(x.shape, dtype=bool)]
+                    elif u == "slice_rev":
+                        y = x[::-1]
+                    elif u == "mixedidx":
+                        y = x[:, [0]]
+                    else:
+                        y = mg.transpose(x).reshape(-1)
+                except Exception as e:  # noqa: BLE001
+                    return Mismatch("use_raised", f"{u} on kept leaf h{h}: {fmt_exc(e)}")
+                shares = y.size > 0 and np.shares_memory(y.data, x.data)
+                g1 = x.grad
+                if shares:
+                    if g0b is not None and (g1 is None or (g1.tobytes(), g1.shape, str(g1.dtype)) != g0b):
+                        return Mismatch("grad_lost_on_view_op", f"h{h}.grad did not persist across the view-only operation {u}")
+                elif y.size > 0 or u in ("mul", "flatten", "sum"):
+                    if g1 is not None:
+                        return Mismatch("stale_grad_after_use", f"h{h}.grad is still set after h{h} entered the non-view operation {u}")
+                    for t in views:
+                        if t.grad is not None and t.creator is not None:
+                            return Mismatch("stale_view_grad_after_use", f"a view of h{h} still reports a gradient after h{h} entered the non-view operation {u}")
                 del y, views
             elif act == "inplace":
                 try:
